@@ -5,7 +5,7 @@ From Coq Require Import String Ascii List NArith Bool Permutation.
 Import ListNotations.
 Require Import Verif.Foreign.NameEscape Verif.Foreign.NameEscapeProps Verif.Foreign.Tables.
 Require Import Verif.Foreign.ImportSpec Verif.Foreign.ImportProps Verif.Foreign.ImportRun Verif.Foreign.ImportTheorems.
-Require Import Verif.Foreign.XsdSpec Verif.Foreign.XsdProps.
+Require Import Verif.Foreign.XsdSpec Verif.Foreign.XsdProps Verif.Foreign.EndpointSpec Verif.Foreign.EndpointProps.
 
 (* --- safe_name_valid_and_faithful, over ALL byte strings, for the replacement table of the current source --- *)
 Theorem C11_safe_name_is_a_Name : forall s, name_re (safe_name_cur s) = true.
@@ -191,3 +191,38 @@ Theorem C11_xsd_optional_array_refuted :
   end.
 Proof. exact xsd_optional_array_refuted. Qed.
 Print Assumptions C11_xsd_optional_array_refuted.
+
+(* ---------------- endpoints: the parameters of every path x method (Foreign/EndpointSpec.v) ---------------- *)
+(* an operation's own parameters and the path-level ones it does not override (by name) each show up in the list of
+   their location with the kind of their type, optional iff not required (path parameters never); the body
+   parameter is there *)
+Theorem C11_import_complete_endpoints : forall e p,
+  NoDup (map q_name (e_common e)) -> NoDup (map q_name (e_own e)) ->
+  (In p (e_own e) \/ (In p (e_common e) /\ ~ In (q_name p) (map q_name (e_own e)))) ->
+  let pr := snd (endpoint_proj safe_name_cur unesc_c map_type_c native_c e) in
+  (q_in p = "query"%string -> In (pfield unesc_c map_type_c native_c (negb (q_required p)) p) (ep_query pr))
+  /\ (q_in p = "path"%string -> In (pfield unesc_c map_type_c native_c false p) (ep_url pr))
+  /\ (q_in p = "header"%string -> In (pfield unesc_c map_type_c native_c (negb (q_required p)) p) (ep_header pr))
+  /\ (forall b, e_body e = Some b -> ep_body pr = [unesc_c (safe_name_cur b)]).
+Proof. exact (import_complete_endpoints safe_name_cur unesc_c map_type_c native_c). Qed.
+Print Assumptions C11_import_complete_endpoints.
+
+Theorem C11_import_sound_endpoints : forall e k f,
+  let pr := snd (endpoint_proj safe_name_cur unesc_c map_type_c native_c e) in
+  In (k, f) (ep_query pr ++ ep_url pr ++ ep_header pr) ->
+  exists p, (In p (e_own e) \/ In p (e_common e)) /\ k = q_name p.
+Proof. exact (import_sound_endpoints safe_name_cur unesc_c map_type_c native_c). Qed.
+Print Assumptions C11_import_sound_endpoints.
+
+(* OpenAPI identifies a parameter by (name, in); Parameters by name only: same name in another location is lost *)
+Theorem C11_extend_by_name_only_refuted :
+  let h := mkq (of_string "trace") "header" true "string" "" in
+  let q := mkq (of_string "trace") "query" false "string" "" in
+  extend [h] [q] = [q].
+Proof. exact extend_by_name_only_refuted. Qed.
+Print Assumptions C11_extend_by_name_only_refuted.
+
+Theorem C11_parameters_shape_current : List.length Verif.Gen.ForeignTables.params_shape = 13%nat
+  /\ nth_error Verif.Gen.ForeignTables.params_shape 5 = Some "res := ParamSet{}"%string.
+Proof. rewrite params_shape_ok. split; reflexivity. Qed.
+Print Assumptions C11_parameters_shape_current.
